@@ -10,11 +10,13 @@ from typing import Any, Dict, List, Optional, Tuple
 
 import yaml
 
+from harness.extract import config_resolve as x_res
 from harness.extract import config_sites as x_cfg
 from harness.gen import scenario as G
 from harness.lib import scen
 from harness.lib.core import VERIF, Ctx, Rng, lean_lock, run_driver
 from harness.rigs import config as R
+from harness.rigs import config_falsy as F
 
 MANIFEST = {
     "text": "Lean 4 proof about an executable model of the scenario loader (PrimaiteGame.from_config: game options, airspace capacities, "
@@ -62,7 +64,7 @@ MANIFEST = {
     "technique": "Lean 4 theorems over an executable loader model; regenerated site inventory and tables; differential inventory rig",
     "design_ref": "5/C20",
 }
-MODULES = ["PrimaiteModel.Props.C20", "PrimaiteModel.Props.C20Office", "PrimaiteModel.Props.C20Spec"]
+MODULES = ["PrimaiteModel.Props.C20", "PrimaiteModel.Props.C20Office", "PrimaiteModel.Props.C20Spec", "PrimaiteModel.Props.C20Resolve"]
 EXE = "drv_c20"
 KEEP = ()  # every mapping is permuted, at every level (F-29, which made `action_probabilities` order-sensitive, is repaired)
 # test assets that are not well-formed scenario files: one needs a plug-in node type, one has `agent_settings:` null
@@ -560,6 +562,7 @@ def _vocabulary_gaps() -> List[str]:
 def run(ctx: Ctx):
     with lean_lock():
         ctx.extract("Config", x_cfg.emit)
+        ctx.extract("ConfigResolve", x_res.emit)
         ctx.prove(MODULES, exes=[EXE], leanchecker=ctx.thorough)
     ctx.cov["rule"] = ("cases = corpus witnesses + generated scenarios (families lan / routed / dmz x size 1-3 x with / without configured "
                        "system software) + software-matrix scenarios (every configurable software type with non-default options on "
@@ -640,6 +643,32 @@ def run(ctx: Ctx):
                           {"mode": "schedule", "dir": str(d), "failure": fl})
         for nm, cfg in cfgs:
             cases.append((f"scheduled:{nm}", cfg, ctx.scale(0, 8)))
+    # 5. one attribute, several sources: the full grid own value x competing default of every translated resolution site (the domain
+    #    of the C20_gen_resolve_* theorems on a small value set, on the REAL loader), the grid points where the regenerated
+    #    translation and the specification differ (counter-models; none on a correct loader), and every falsy-but-legal value of
+    #    every option the real schemas know, without and with the competing sources
+    try:
+        cms = F.counter_models()
+        cm_detail = "; ".join(f"{n}: own={F._tag(o)} default={F._tag(d)} -> loader statements give {g!r}, declared meaning {w!r}" for n, o, d, g, w in cms[:4])
+    except Exception as e:
+        cms, cm_detail = [], f"translation not available ({type(e).__name__}: {str(e)[:120]})"
+        ctx.count("counter-models:translation-not-available")
+    ctx.oblige("rig:the regenerated translation of every two-source site meets `effective` on the whole value grid", "correspondence",
+               not cms, cm_detail)
+    meta_of: Dict[str, Dict] = {}
+    for n, o, d, g, w in cms:
+        nm = f"counter-model:{n}:own={F._tag(o)}:dflt={F._tag(d)}"
+        cases.append((nm, F.place(n, o, d), 0))
+        meta_of[nm] = {"site": n, "own": F._tag(o), "dflt": F._tag(d), "translated": repr(g), "specified": repr(w)}
+        ctx.count("counter-model:" + n)
+    fam = F.two_source_grid()
+    sf = F.schema_falsy_cases() + F.agent_settings_cases(ctx.rng.fork("falsy-agents"))
+    if not ctx.thorough:   # quick: the two-source grid in full, the schema-driven family thinned (every option still appears over seeds)
+        frng = ctx.rng.fork("falsy")
+        sf = [c for c in sf if c[2].get("thing") != "software" and c[2].get("thing") != "agent-setting" or frng.chance(1, 2)]
+    for nm, cfg, meta in fam + sf:
+        cases.append((nm, cfg, 0))
+        meta_of[nm] = meta
     # model side, batched
     all_lines: List[str] = []
     spans: Dict[str, Tuple[int, int]] = {}
@@ -674,9 +703,18 @@ def run(ctx: Ctx):
             mo = (out[st + ln - 3], out[st + ln - 2], out[st + ln - 1])
             modelled += 1
             ctx.cov["traces_validated_against_impl"] += 1
-        small = kind in ("gen", "matrix", "corpus") or not name.startswith(("shipped:uc7", "scheduled:uc7"))
-        fails, inv = check_scenario(cfg, mo, twice=small or ctx.thorough, ctx=ctx)
-        if small or ctx.thorough:
+        family = kind in ("two-source", "falsy", "counter-model")
+        small = (kind in ("gen", "matrix", "corpus") or not name.startswith(("shipped:uc7", "scheduled:uc7"))) and not family
+        fails, inv = check_scenario(cfg, mo, twice=small or (ctx.thorough and not family), ctx=ctx)
+        if family:
+            ctx.cov["evaluations"] += 1
+            m = meta_of.get(name, {})
+            ctx.count(f"{kind}:{m.get('site') or m.get('thing')}")
+            if m.get("thing"):
+                ctx.count(f"falsy-option:{m.get('thing')}:{m.get('type', '')}:{m.get('option')}")
+            if mo is None:
+                ctx.count(f"{kind}:outside-the-model")
+        if small or (ctx.thorough and not family):
             ctx.count("second-build-from-same-mapping")
             ctx.cov["evaluations"] += 1
         summ = G.summary(cfg) if "simulation" in cfg else {}
@@ -701,7 +739,7 @@ def run(ctx: Ctx):
             for n in off_hosts:
                 for e in (n.get("services") or []) + (n.get("applications") or []):
                     ctx.count(f"software-on-{str(n['operating_state']).upper()}-node:{e['type']}")
-        if inv is not None:
+        if inv is not None and not family:
             nv = 3 if (ctx.thorough or kind in ("gen", "corpus", "matrix") or steps) else 1
             fmts = None
             if kind in ("gen", "matrix") and name not in raw_corpus:
@@ -729,6 +767,8 @@ def run(ctx: Ctx):
             if f["kind"] == "load-raises" and f.get("exc") == "RecursionError":
                 sig["cause"] = "second-nic-linked-before-first"
             rp = {"mode": "scenario", "cfg": cfg, "digest_steps": steps, "failure": f, "from": name}
+            if name in meta_of:
+                rp["family"] = meta_of[name]
             if name in raw_corpus:
                 rp["raw_keys"] = True
             if f["kind"].startswith("env-"):
